@@ -779,6 +779,9 @@ func (d *Data) GobDecode(b []byte) error {
 	if err := dec.Decode(&(d.tags)); err != nil {
 		dvid.Infof("Serialization of data %q had no tags.  Skipping reading of tags.\n", d.name)
 	}
+	if err := dec.Decode(&(d.deleted)); err != nil {
+		d.deleted = false // serialized before the deletion flag was stored
+	}
 	return nil
 }
 
@@ -823,6 +826,9 @@ func (d *Data) GobEncode() ([]byte, error) {
 		return nil, err
 	}
 	if err := enc.Encode(d.tags); err != nil {
+		return nil, err
+	}
+	if err := enc.Encode(d.deleted); err != nil {
 		return nil, err
 	}
 	return buf.Bytes(), nil
